@@ -132,6 +132,10 @@ def run(ctx):
     E.require_design_ok(ctx, res, cfg)
     g = E.Graph.load(res)
     paths, ncov = cover(g, ctx.rng, 30)
+    if not ctx.quick:
+        # two more covers with other random choices: every edge again, behind different predecessors
+        for _ in range(2):
+            paths += cover(g, ctx.rng, 30)[0]
     ctx.log("%s: %d histories, %d (history, letter x timestamp class | join) edges, %d covering paths" %
             (cfg, res["distinct"], g.nedges, len(paths)))
     def cfg_of(path):
@@ -160,13 +164,17 @@ def run(ctx):
     ctx.cov["distinct_nontrivial"] = len(scen)
     ctx.cov["edges_total"] = g.nedges
     ctx.cov["edges_covered_by_paths"] = ncov if not ctx.quick else None
-    ctx.cov["rule"] = ("scenario = init-rooted path of the Payloads history graph (thorough: a cover of every (history, letter x "
+    ctx.cov["rule"] = ("scenario = init-rooted path of the Payloads history graph (thorough: three covers of every (history, letter x "
                        "timestamp class) edge; quick: a seed-chosen 4000 of those paths), published through "
                        "Group.OnReadRtmpAvMsg of a real ServerManager with every output enabled, in child processes, one "
                        "watchdog per call and a probe of a second stream after every step; each is distinct")
     if scen:
         ctx.sample({"sc": scen[0]["sc"], "cfg": scen[0]["cfg"]["id"],
                     "steps": [(s["m"]["name"] + "@" + s["ts"]) if s["name"] == "Pub" else "Join" for s in scen[0]["steps"]]})
+    ends = [r.get("info", {}) for r in rows if r.get("ev") == "End"]
+    ctx.cov["scenarios_with_rtsp_consumer_playing"] = sum(1 for i in ends if i.get("rtspPlaying", 0) > 0)
+    ctx.cov["scenarios_with_rtp_delivered"] = sum(1 for i in ends if i.get("rtspBytes", 0) > 0)
+    ctx.cov["scenarios_with_ts_delivered"] = sum(1 for i in ends if i.get("tsBytes", 0) > 0)
     rej = E.validate(ctx, "Trace_Payloads", "Trace_Payloads.cfg", rows)
     # one report per signature: prefer a case that was re-run alone and reproduced
     rej.sort(key=lambda r: 0 if r["event"].get("obs", {}).get("confirmed") else 1)
